@@ -208,6 +208,43 @@ impl F {
         }
     }
 
+    /// a formula for the Boolean function given by a truth table (disjunctive normal form; `style` varies the
+    /// way it is written: 0 = DNF, 1 = negated DNF of the complement, 2 = DNF with implications for the literals)
+    pub fn from_tt(tt: &TT, style: usize) -> F {
+        let n = tt.n;
+        if tt.is_true() {
+            return if style == 1 { F::not(F::Bot) } else { F::Top };
+        }
+        if tt.is_false() {
+            return if style == 1 { F::not(F::Top) } else { F::Bot };
+        }
+        let dnf = |t: &TT| -> F {
+            let mut terms = Vec::new();
+            for a in 0..TT::size(n) {
+                if t.get(a) {
+                    let lits: Vec<F> = (0..n)
+                        .map(|i| {
+                            if (a >> i) & 1 == 1 {
+                                F::Atom(i)
+                            } else if style == 2 {
+                                F::imp(F::Atom(i), F::Bot)
+                            } else {
+                                F::not(F::Atom(i))
+                            }
+                        })
+                        .collect();
+                    terms.push(F::and_all(lits));
+                }
+            }
+            F::or_all(terms)
+        };
+        if style == 1 {
+            F::not(dnf(&tt.not()))
+        } else {
+            dnf(tt)
+        }
+    }
+
     /// random formula over the given atoms
     pub fn random(rng: &mut Rng, atoms: &[usize], depth: usize) -> F {
         if depth == 0 || rng.chance(1, 5) {
